@@ -1884,6 +1884,22 @@ class MultiSpeciesLattice(Lattice):
             pairs=new_pairs,
         )
 
+    def save_hdf5(self, hdf5_saver, h5gr, subpath):
+        super().save_hdf5(hdf5_saver, h5gr, subpath)
+        hdf5_saver.save(self.simple_lattice, subpath + 'simple_lattice')
+        hdf5_saver.save(self.species_names, subpath + 'species_names')
+        h5gr.attrs['N_species'] = self.N_species
+        h5gr.attrs['simple_Lu'] = self.simple_Lu
+
+    @classmethod
+    def from_hdf5(cls, hdf5_loader, h5gr, subpath):
+        obj = super().from_hdf5(hdf5_loader, h5gr, subpath)
+        obj.simple_lattice = hdf5_loader.load(subpath + 'simple_lattice')
+        obj.species_names = hdf5_loader.load(subpath + 'species_names')
+        obj.N_species = int(hdf5_loader.get_attr(h5gr, 'N_species'))
+        obj.simple_Lu = int(hdf5_loader.get_attr(h5gr, 'simple_Lu'))
+        return obj
+
     def _generate_new_pairs(self):
         N_sp = self.N_species
         names = self.species_names
